@@ -10,7 +10,7 @@ import stages
 
 def alphabet(n):
     return ([("it", 0), ("it", 1), ("it", 2), ("it", -1)] + [("nth", i) for i in range(n + 1)]
-            + [("seek", k) for k in range(n + 1)] + [("count",)]
+            + [("seek", k) for k in range(n + 1)] + [("seek", n + 2), ("hint",), ("count",)]
             + [("skiptake", 0, 2), ("skiptake", 1, 1), ("skiptake", n, 1)])      # iterator adaptors skip(k).take(j)
 
 
@@ -49,12 +49,19 @@ def run(rep, tier, rng):
     # a fifth file whose index lists the records in another order than they are stored (the second listed record lies
     # before the first one in the file, the third after both)
     import C14
+    import struct
+    models.append(mk([1, 2, 3]))
+    # a sixth file whose .shp header announces a length that ends inside the second record (a header never brought up
+    # to date), with a correct index: with the index, the index alone says where records are
     models.append(mk([1, 2, 3]))
     for mi, m in enumerate(models):
         shp, shx = refesri.encode_shp(m), refesri.encode_shx(m)
         if mi == 4:
             shp, entries = C14.build_layout(rng, m, (1, 0, 2), [0, 0, 0, 0], lambda k: bytes(k))
             shx = refesri.encode_shx(m, entries=entries)
+        if mi == 5:
+            first = len(refesri.encode_record(1, m["records"][0]["shape"]))
+            shp = shp[:24] + struct.pack(">i", (100 + first + 10) // 2) + shp[28:]
         items = [("ok", refesri.denote(r["shape"])) for r in m["records"]]
         for h in hists:
             # every history ends with an iteration or, every fourth one, with the bulk read (read / read_as), observed too
@@ -66,7 +73,7 @@ def run(rep, tier, rng):
                 meta.append(([items[0], ("err", 8, 8, m["records"][1]["shape"]["code"]), items[2]], ops, mi))
                 continue
             meta.append((items, ops, mi))
-    rep.cov["rule"] = ("exhaustive histories over {iterate 0/1/2/all items, random access at 0..n, seek 0..n, shape count} up to "
+    rep.cov["rule"] = ("exhaustive histories over {iterate 0/1/2/all items, random access at 0..n, seek 0..n and beyond, size hint, shape count} up to "
                        "length %d (quick: all of length <= 2, a rotating third of length 3) plus %d longer random ones, each "
                        "followed by a full iteration, on a file of n = 3 records of pairwise different sizes, on one of equal "
                        "sizes, on one with a null-shape record in the middle, on one whose index order differs from the file order and on one with a record of another type in the middle (typed reads "
@@ -82,7 +89,7 @@ def run(rep, tier, rng):
             nfail += 1
             if nfail == 1:
                 rep.violation({"kind": "oracle", "what": msg, "case_kind": "read", "case": c, "ops": ops,
-                               "file": ["different sizes", "equal sizes", "null record in the middle", "record of another type in the middle", "index order differs from file order"][mi]})
+                               "file": ["different sizes", "equal sizes", "null record in the middle", "record of another type in the middle", "index order differs from file order", "header length ends inside the second record"][mi]})
     # ---- the complete Reader (shape + attribute row pairs): after a seek or a partial iteration the bulk read
     # `Reader::read` starts where the reader stands, for shapes and rows alike
     import C08
@@ -126,6 +133,38 @@ def run(rep, tier, rng):
             nfail += 1
             if nfail == 1:
                 rep.violation({"kind": "oracle", "what": msg, "case_kind": "pair", "case": c[:300]})
+    # ---- the complete reader on given files, with and WITHOUT an index (kind 17): successive iterations and the bulk
+    # read go on where the previous one stopped, for shapes and rows alike
+    m3 = mk([1, 2, 3, 2])
+    shp3, shx3 = refesri.encode_shp(m3), refesri.encode_shx(m3)
+    fcases, fmeta = [], []
+    for with_idx in (True, False):
+        for ops in ([("it", 1), ("it", -1)], [("it", 1), ("readall",)], [("it", 2), ("it", 1), ("readall",)], [("it", 1), ("it", 1), ("it", 1), ("it", -1)],
+                    [("readall",)], [("it", -1), ("it", -1)]):
+            for nrows in (4, 3):
+                fcases.append([17] + C.pack_bytes(shp3) + ([1] + C.pack_bytes(shx3) if with_idx else [0]) + [nrows] + C08.pair_case([], ops)[2:])
+                fmeta.append((with_idx, ops, nrows))
+    fimpl = stages.correspondence(rep, "pairfile", dev, fcases, "pairfile(complete reader on given files, with and without index)", vm_sample=20)
+    for c, (with_idx, ops, nrows), r in zip(fcases, fmeta, fimpl):
+        if r[:1] != [0]:
+            nfail += 1
+            rep.violation({"kind": "oracle", "what": "the complete reader could not be opened on a conformant file: %r" % (r[:4],), "case_kind": "pairfile", "case": c[:200]})
+            break
+        res = C08.parse_pair([0, 0, 0, 0] + r, 0, ops)
+        pos, msg = 0, None
+        for o, out in zip(ops, res["ops"]):
+            k = min(nrows, 4) - pos if (o[0] == "readall" or o[1] < 0) else min(o[1], min(nrows, 4) - pos)
+            ids = [(it[2] if it[0] == "ok" else it) for it in out["items"]]
+            if ids != list(range(pos, pos + k)):
+                msg = ("complete reader %s index, %d rows for 4 shapes: after %r the call %r returned the pairs with rows %r, expected %r"
+                       % ("with" if with_idx else "without", nrows, ops[:ops.index(o)], o, ids, list(range(pos, pos + k))))
+                break
+            pos += k
+        if msg:
+            nfail += 1
+            rep.violation({"kind": "oracle", "what": msg, "case_kind": "pairfile", "case": c[:200]})
+            break
+    rep.cov["complete_reader_on_given_files_cases"] = len(fcases)
     rep.sample({"ops": meta[40][1]})
     rep.cov["oracle"] = {"checked": len(cases), "failing": nfail}
     rep.assumptions += ["the complete Reader (shape + attribute row pairs follow the same positions) is exercised by C08's pair "
